@@ -7,8 +7,8 @@
    accepted input goes through unpack -> check -> size/pack/pack_to_buffer -> unpack -> pack, on protobuf-c
    and on the model.  Hence the names ending in _partial. *)
 From Coq Require Import ZArith List Bool.
-From PBC Require Import Impl.Desc Impl.Mem Impl.Size Impl.Pack Impl.PackBuf Impl.Unpack Impl.Check Impl.WF Impl.Canon
-     Proofs.MsgRT4 Proofs.SizePackFinal Proofs.CheckSafe.
+From PBC Require Import Impl.Desc Impl.Mem Impl.Size Impl.Pack Impl.PackBuf Impl.Unpack Impl.Check Impl.WF Impl.Canon Impl.Norm
+     Proofs.MsgRT4 Proofs.SizePackFinal Proofs.CheckSafe Proofs.NormPack.
 Import ListNotations.
 Local Open Scope Z_scope.
 
@@ -37,3 +37,20 @@ Theorem C06_checked_is_serialisable_partial : forall (E : env) (m : msg),
   size_msg E m <> Err ENull /\ pack_msg E m <> Err ENull /\ chunks_msg E m <> Err ENull.
 Proof. exact check_safe. Qed.
 Print Assumptions C06_checked_is_serialisable_partial.
+
+(* The same for every message whose NORMALISATION is in normal form.  Impl/Norm.v replaces the two
+   representation choices of the parser that never reach the wire (array capacity larger than the element count;
+   an implicit-presence field explicitly sent with its zero value) by the normal form; serialisation does not see
+   the difference (pack_norm), so: what pack writes for m parses back (to the normalisation of m), and serialising
+   that result reproduces the bytes.  The check evaluates the hypothesis canon_msg E (norm_msg E m), with the
+   extracted predicates, on the parse result of every accepted input it generates and reports the count. *)
+Theorem C06_serialisation_ignores_normalisation : forall (E : env), env_ok E = true ->
+  forall m, pack_msg E (norm_msg E m) = pack_msg E m.
+Proof. exact pack_norm. Qed.
+Print Assumptions C06_serialisation_ignores_normalisation.
+
+Theorem C06_stable_when_normal_form : forall (E : env), env_ok E = true -> forall m b,
+  canon_msg E (norm_msg E m) = true -> pack_msg E m = Ok b -> Z.of_nat (length b) <= 2147483647 ->
+  unpack_top E (m_desc m) b = Ok (norm_msg E m) /\ pack_msg E (norm_msg E m) = Ok b.
+Proof. exact stable_via_norm. Qed.
+Print Assumptions C06_stable_when_normal_form.
